@@ -49,6 +49,8 @@ fn parse_args() -> Args {
 
 fn main() {
     let args = parse_args();
+    let limit = std::env::var("VERIF_HANG_SECS").ok().and_then(|x| x.parse().ok()).unwrap_or(if args.thorough { 900 } else { 240 });
+    out::start_watchdog(limit);
     match args.cmd.as_str() {
         "alloc" => alloc::run(&args),
         "pure" => pure::run(&args),
